@@ -390,8 +390,48 @@ pub fn run_check(check: &dyn Check, args: &Args) -> i32 {
     }
 }
 
+/// Proof that the hooks own the nondeterminism, run before any verdict is trusted: three fixed programs are
+/// analysed twice under the canonical plan and once more under a fixed one-deviation plan executed twice; the
+/// observations and the order-point logs of equal plans must be identical.
+fn determinism_selfcheck() -> Result<(), String> {
+    use crate::obs::{analyze, lazy};
+    use storage_layout_extractor::verif_hooks::Perm;
+    let programs = [
+        "5f5460ff165f555f54805f12505f55",
+        "335f52600760205260405f20600255345f5260205f2060010155",
+        "5f3560e01c8063a000000014601a57005b505f5473ffffffffffffffffffffffffffffffffffffffff165f5260205ff3",
+    ];
+    for h in programs {
+        let code = crate::util::unhex(h);
+        let a = analyze(&code, storage_layout_extractor::vm::Config::default(), &Vec::new(), lazy());
+        let b = analyze(&code, storage_layout_extractor::vm::Config::default(), &Vec::new(), lazy());
+        if a.canon() != b.canon() || a.log != b.log {
+            return Err(format!("two canonical runs of {h} differ: {} vs {}", a.canon(), b.canon()));
+        }
+        if a.log.is_empty() {
+            return Err(format!("no order point was logged while analysing {h}: the hooks are not active"));
+        }
+        if let Some(p) = a.log.iter().find(|p| p.len >= 2) {
+            let plan = vec![((p.site.to_string(), p.occurrence), Perm::Reverse)];
+            let c = analyze(&code, storage_layout_extractor::vm::Config::default(), &plan, lazy());
+            let d = analyze(&code, storage_layout_extractor::vm::Config::default(), &plan, lazy());
+            if c.canon() != d.canon() || c.log != d.log || !c.plan_errors.is_empty() {
+                return Err(format!("replaying a one-deviation plan on {h} is not reproducible"));
+            }
+            if !c.log.iter().any(|q| q.deviated) {
+                return Err(format!("a planned deviation was not applied on {h}"));
+            }
+        }
+    }
+    Ok(())
+}
+
 fn child_main(check: &dyn Check, args: &Args) -> i32 {
     install_quiet_panic_hook();
+    if let Err(e) = determinism_selfcheck() {
+        println!("MACHINERY-ERROR determinism self-check failed: {e}");
+        return 2;
+    }
     let start = Instant::now();
     let tier = args.tier;
     let n = check.chunks(tier);
